@@ -16,6 +16,18 @@ fn ticks(d: Duration) -> u64 {
 
 impl Instant {
     pub fn now() -> Instant {
+        // the read-and-advance is a loom RMW (Relaxed: it orders nothing), so
+        // the scheduler branches here and partial-order reduction knows that
+        // two clock reads do not commute
+        let (lc, tick) = with(|e| (e.loom_clock.clone(), e.knobs.tick));
+        if let Some(lc) = lc {
+            let t = lc.fetch_add(tick, std::sync::atomic::Ordering::Relaxed);
+            with(|e| {
+                e.clock = t + tick;
+                e.counters.clock_reads += 1;
+            });
+            return Instant(t);
+        }
         with(|e| {
             let t = e.clock;
             e.clock += e.knobs.tick;
